@@ -7,7 +7,8 @@
    NOT mechanised: stationarity => global minimum (concavity of logdet); the graphical-lasso solver is
    an oracle whose output is certified per run on exact rationals (props/c13.py). *)
 From Coq Require Import List Reals.
-From ML Require Import Ops Vec VecR MatR LinAlg SDML C13Proof.
+From ML Require Import Ops Vec VecR MatR LinAlg NPNum SDML C13Proof C13Src.
+From MLgen Require Import Src_sdml.
 From ML Require Import PinsC13.
 Import ListNotations.
 Open Scope R_scope.
@@ -28,3 +29,17 @@ Print Assumptions C13_partial.
 (* text-level tie: the functions this property's hand-written model and harness were written from are unchanged
    (digests regenerated from /repo on every run; Proofs/PinsC13.v) *)
 Definition C13_source_pins := pins_C13_ok.
+
+(* the translated source (gen/Src_sdml.v): the solver input of sdml.py has the quadratic form of
+   M0^-1 + balance_param * sum_i y_i v_i v_i^T, and fit raises RuntimeError exactly when the model's vetting does *)
+Definition C13_source_stmt : Prop :=
+  (forall d (P : Rm) (b : R) (ys : Rv) (diffs : Rm) (x : Rv),
+     wfmR d d P -> diffs <> [] -> Forall (wfvR d) diffs -> length ys = length diffs -> wfvR d x ->
+     quadformR (@sdml_emp_cov ROps b P diffs ys) x = quadformR P x + b * wsq ys diffs x) /\
+  (forall raised not_spd not_finite,
+     sdml_raises raised not_spd not_finite = false <-> vet raised not_spd not_finite = SdmlReturns).
+
+Theorem C13_source : C13_source_stmt.
+Proof. exact (conj sdml_emp_cov_form sdml_raises_vet). Qed.
+Print Assumptions C13_source.
+Definition C13_source_skeleton := sdml_skeleton_ok.
